@@ -207,7 +207,12 @@ func (r *evRec) RecordEvent(e trace.Event) {
 // System is a closed instance of a spec.
 type System struct {
 	Procs []ProcDef
-	Init  *State
+	Init  *State // where the search starts
+	// Root is the true initial state; Prefix the real execution that leads from Root to Init
+	// (non-empty after Seed).  Every path reported, replayed or conformance-checked is Prefix+suffix
+	// from Root, so a seeded search still only contains real executions from the initial state.
+	Root   *State
+	Prefix []Move
 	// Observe may update the observer component after a committed step.
 	Observe func(pre *State, p int, ev *trace.Event, post *State) string
 }
@@ -234,6 +239,8 @@ func (sys *System) InitState(g Globals) *State {
 		s.Locals[p] = ctx.VerifLocals()
 	}
 	sys.Init = s
+	sys.Root = s
+	sys.Prefix = nil
 	return s
 }
 
@@ -373,4 +380,46 @@ func Picks(cs []Choice) []int {
 		r[i] = c.Pick
 	}
 	return r
+}
+
+// SeedStep selects one transition of a seeding script: the named process takes its first
+// committing zero-deviation attempt accepted by Accept (nil = any).
+type SeedStep struct {
+	Proc   string
+	Accept func(a *Attempt) bool
+}
+
+// Seed advances Init along a scripted real execution ("start from non-initial states too"): the
+// search then explores everything reachable from a state that plain BFS would only reach at a
+// depth beyond its budget.  It returns an error (and leaves Init unchanged) if some step of the
+// script is not enabled - the scenario then does not apply to this tree and is skipped.
+func (sys *System) Seed(script []SeedStep) error {
+	s := sys.Init
+	prefix := append([]Move{}, sys.Prefix...)
+	for i, st := range script {
+		p := -1
+		for j := range sys.Procs {
+			if sys.Procs[j].Name == st.Proc {
+				p = j
+			}
+		}
+		if p < 0 {
+			return fmt.Errorf("seed step %d: no process %q", i, st.Proc)
+		}
+		var chosen *Attempt
+		for _, a := range sys.Succ(s, p) {
+			a := a
+			if a.Kind == Commit && a.Dev == 0 && (st.Accept == nil || st.Accept(&a)) {
+				chosen = &a
+				break
+			}
+		}
+		if chosen == nil {
+			return fmt.Errorf("seed step %d: %s at %s has no committing attempt accepted by the script", i, st.Proc, s.PC(p))
+		}
+		prefix = append(prefix, Move{P: p, Picks: toU8(chosen.Choices)})
+		s = chosen.Next
+	}
+	sys.Init, sys.Prefix = s, prefix
+	return nil
 }
